@@ -1,7 +1,10 @@
 /-
   C07 — the lexical layer of the assembler equals the grammar.
-  (1) `tokenize_eq_splitWords` (Lemmas/C07Tokenize.lean, restated here), (2) `classify_eq_readTok`,
-  (3) `btcc_eq_compile`, with the exact side conditions and `rfl`-checked witnesses of the differences.
+  (1) `tokenize_eq_splitWords`: the tokenizer of `parse_args(const char*, size_t)` = `Spec.splitWords` on every
+      bracket body the specification accepts (balanced brackets), no further side condition;
+  (2) `classify_eq_readTok`: number / opcode / hex classification of a plain word;
+  (3) `btcc_eq_compile` (nesting up to the 200 levels of `Value::DepthGuard`) and `btcc_refuses_deep` (beyond);
+  witnesses: `btcc_opxff` (known finding), `btcc_glued_out_of_grammar`, `btcc_comment_after_group`.
 -/
 import Btcdeb
 import BtcdebProofs.Properties.C07
@@ -13,53 +16,54 @@ open Btcdeb Btcdeb.Model Btcdeb.Proofs.C07Int Btcdeb.Proofs.C07Opcode
 
 /-! ### 1. the tokenizer -/
 
-/-- JOB B.1 — on a non-empty bracket body that satisfies the lexical side condition `Spaced` (every nested
-    `[`…`]` group starts where no word is in progress and is followed by a blank or the end; no stray `]`;
-    see `spacedGo`), the tokenizer of `Value::parse_args(const char*, size_t)` yields exactly the words of
-    `Spec.splitWords`: same separators, `#` comments to the end of the line (brackets inside them ignored at
-    depth 0, counted inside a nested group — by both), nested groups kept as one word. `tail` is whatever follows
-    the body in memory (the closing `]`, the NUL); any specification fuel above the length works.
-    The side condition is needed: see `lexer_differs_glued`, `lexer_differs_after_close`. -/
-theorem tokenize_eq_splitWords (body tail : Bytes) (hne : body ≠ []) (hs : Spaced body) (k' : Nat) (hk' : k' > body.length) :
-    ∃ ws, Spec.splitWords k' body [] 0 [] = some ws ∧
-      tokenize (body ++ tail) body.length (body.length + 2) 0 0 [] = .ok ws :=
-  tokenize_eq_splitWords_aux body tail hne hs k' hk'
+/-- JOB B.1 — on a non-empty bracket body, whenever `Spec.splitWords` yields words (that is: the brackets of the
+    body balance — the specification answers `none` exactly for an unclosed `[` or a `]` at depth 0), the
+    tokenizer of `Value::parse_args(const char*, size_t)` yields exactly those words: maximal runs of non-separator
+    characters at depth 0, a bracket group (whatever it contains) being part of the word it occurs in, blanks as
+    separators, `#` at depth 0 starting a comment to the end of the line. No further side condition.
+    `tail` is whatever follows the body in memory (the closing `]`, the NUL); any fuel above the length works. -/
+theorem tokenize_eq_splitWords (body tail : Bytes) (hne : body ≠ []) (k' : Nat) (hk' : k' > body.length)
+    (ws : List Bytes) (hs : Spec.splitWords k' body [] 0 [] = some ws) :
+    tokenize (body ++ tail) body.length (body.length + 2) 0 0 [] = .ok ws :=
+  tokenize_eq_splitWords_aux body tail hne k' hk' ws hs
 
-/-- … and `parse_args` then constructs one value per word (no re-grouping happens: the words are balanced) -/
-theorem parseArgsString_eq (mk : Bytes → Nat → VM Value) (body : Bytes) (hne : body ≠ []) (hs : Spaced body) :
-    ∃ ws, Spec.splitWords (body.length + 3) body [] 0 [] = some ws ∧
-      parseArgsStringWith mk (body ++ [93]) body.length = ws.mapM (fun w => mk w w.length) := by
-  obtain ⟨ws, h1, h2⟩ := tokenize_eq_splitWords body [93] hne hs (body.length + 3) (by omega)
-  refine ⟨ws, h1, ?_⟩
-  have hwords := splitWords_words _ body [] 0 [] ws h1 (by intro _; simp) (by intro h; omega)
-  have hgood : ∀ w' ∈ ws, GoodWord w' := by
-    intro w' hw'
-    rcases hwords w' hw' with h | h
-    · cases h
-    · exact h.1
-  unfold parseArgsStringWith
-  have : (body.length == 0) = false := by
-    have := List.length_pos_iff.mpr hne
-    simp; omega
-  simp only [this, Bool.false_eq_true, if_false, h2, bind, Except.bind]
-  rw [parseArgsListWith_good _ ws [] [] hgood]
-  cases ws.mapM (fun w => mk w w.length) <;> rfl
+/-- … and `parse_args` then constructs one value per word (no re-grouping: every word is balanced); this also
+    holds for the empty body -/
+theorem parseArgsString_eq (mk : Bytes → Nat → VM Value) (body : Bytes) (k' : Nat) (hk' : k' > body.length)
+    (ws : List Bytes) (hs : Spec.splitWords k' body [] 0 [] = some ws) :
+    parseArgsStringWith mk (body ++ [93]) body.length = ws.mapM (fun w => mk w w.length) := by
+  by_cases hne : body = []
+  · subst hne
+    obtain ⟨k0, rfl⟩ : ∃ k0, k' = k0 + 1 := ⟨k' - 1, by simp at hk'; omega⟩
+    rw [Spec.splitWords] at hs; simp at hs; subst hs
+    rfl
+  · have h2 := tokenize_eq_splitWords body [93] hne k' hk' ws hs
+    have hwords := splitWords_words _ body [] 0 [] ws hs rfl
+    have hgood : ∀ w' ∈ ws, GoodWord w' := by
+      intro w' hw'
+      rcases hwords w' hw' with h | h
+      · cases h
+      · exact h.1
+    unfold parseArgsStringWith
+    have : (body.length == 0) = false := by
+      have := List.length_pos_iff.mpr hne
+      simp; omega
+    simp only [this, Bool.false_eq_true, if_false, h2, bind, Except.bind]
+    rw [parseArgsListWith_good _ ws [] [] hgood]
+    cases ws.mapM (fun w => mk w w.length) <;> rfl
 
-/-- the two clauses of `Spaced` are needed, at the level of the tokenizer: a word glued in front of a group
-    stays glued in the implementation (`OP_1[OP_2]` is ONE word there, two in the specification) … -/
-theorem lexer_differs_glued :
-    tokenize ([79, 80, 95, 49, 91, 79, 80, 95, 50, 93] ++ [93]) 10 12 0 0 [] = .ok [[79, 80, 95, 49, 91, 79, 80, 95, 50, 93]] ∧
-    Spec.splitWords 13 [79, 80, 95, 49, 91, 79, 80, 95, 50, 93] [] 0 [] = some [[79, 80, 95, 49], [91, 79, 80, 95, 50, 93]] ∧
-    ¬ Spaced [79, 80, 95, 49, 91, 79, 80, 95, 50, 93] := by
-  refine ⟨rfl, rfl, by decide⟩
+/-- examples of the word rule (these were differences before the fix d463b4a of value.h and the matching
+    change of the grammar): a word glued to a group is ONE word … -/
+theorem lexer_glued :
+    tokenize ([79, 80, 95, 49, 91, 79, 80, 95, 50, 93] ++ [93]) 10 12 0 0 [] = .ok [[79, 80, 95, 49, 91, 79, 80, 95, 50, 93]] ∧ Spec.splitWords 13 [79, 80, 95, 49, 91, 79, 80, 95, 50, 93] [] 0 [] = some [[79, 80, 95, 49, 91, 79, 80, 95, 50, 93]] ∧
+    tokenize ([91, 79, 80, 95, 50, 93, 79, 80, 95, 49] ++ [93]) 10 12 0 0 [] = .ok [[91, 79, 80, 95, 50, 93, 79, 80, 95, 49]] ∧ Spec.splitWords 13 [91, 79, 80, 95, 50, 93, 79, 80, 95, 49] [] 0 [] = some [[91, 79, 80, 95, 50, 93, 79, 80, 95, 49]] := by
+  refine ⟨rfl, rfl, rfl, rfl⟩
 
-/-- … and the character directly behind the `]` of a nested group is never looked at by the implementation
-    (`[OP_2]OP_1` yields the words `[OP_2]`, `P_1`; the specification reads `[OP_2]`, `OP_1`) -/
-theorem lexer_differs_after_close :
-    tokenize ([91, 79, 80, 95, 50, 93, 79, 80, 95, 49] ++ [93]) 10 12 0 0 [] = .ok [[91, 79, 80, 95, 50, 93], [80, 95, 49]] ∧
-    Spec.splitWords 13 [91, 79, 80, 95, 50, 93, 79, 80, 95, 49] [] 0 [] = some [[91, 79, 80, 95, 50, 93], [79, 80, 95, 49]] ∧
-    ¬ Spaced [91, 79, 80, 95, 50, 93, 79, 80, 95, 49] := by
-  refine ⟨rfl, rfl, by decide⟩
+/-- … and a `#` directly behind a group starts a comment -/
+theorem lexer_comment_after_group :
+    tokenize ([91, 79, 80, 95, 50, 93, 35, 99, 10, 79, 80, 95, 49] ++ [93]) 13 15 0 0 [] = .ok [[91, 79, 80, 95, 50, 93], [79, 80, 95, 49]] ∧
+    Spec.splitWords 16 [91, 79, 80, 95, 50, 93, 35, 99, 10, 79, 80, 95, 49] [] 0 [] = some [[91, 79, 80, 95, 50, 93], [79, 80, 95, 49]] := by
+  refine ⟨rfl, rfl⟩
 
 /-! ### 2. classification of a plain word -/
 
@@ -243,18 +247,27 @@ theorem toksOk_mem : ∀ (ts : List Spec.Tok), toksOk ts = true → ∀ t ∈ ts
     · exact h.1
     · exact ih h.2 t ht
 
-/-- the lexical side condition of `Spaced`, for a word and, recursively, for the words of every nested
-    bracket body (`f` = the fuel `Spec.readTok` is run with) -/
-def spacedWord : Nat → Bytes → Bool
-  | 0, _ => true
-  | f + 1, w =>
-    match w with
-    | 91 :: rest =>
-      spacedGo (.plain true) rest.dropLast &&
-        (match Spec.splitWords (rest.length + 2) rest.dropLast [] 0 [] with
-         | some ws => ws.all (spacedWord f)
-         | none => true)
-    | _ => true
+mutual
+/-- how many `Value` constructors are active at once while the token is read (`Value::DepthGuard` counts
+    them): 1 for a plain token, 1 + the deepest token of the body for a sub-script (1 for `[]`) -/
+def tokNeed : Spec.Tok → Nat
+  | .sub b => toksNeed b + 1
+  | _ => 1
+def toksNeed : List Spec.Tok → Nat
+  | [] => 0
+  | t :: ts => max (tokNeed t) (toksNeed ts)
+end
+
+theorem toksNeed_mem : ∀ (ts : List Spec.Tok) (t : Spec.Tok), t ∈ ts → tokNeed t ≤ toksNeed ts := by
+  intro ts
+  induction ts with
+  | nil => intro t ht; cases ht
+  | cons a ts ih =>
+    intro t ht
+    rw [toksNeed]
+    rcases List.mem_cons.mp ht with rfl | ht
+    · exact Nat.le_max_left _ _
+    · exact Nat.le_trans (ih t ht) (Nat.le_max_right _ _)
 
 /-- appending the value to a script emits exactly what the token must compile to -/
 def Emits (v : Value) (t : Spec.Tok) : Prop := ∀ s, v.appendTo s = .ok (s ++ Spec.compileTok t)
@@ -444,22 +457,56 @@ theorem valueBody_bracket (cx : VCtx) (mk : Bytes → Nat → VM Value) (body : 
   rw [hd, hl]
   rfl
 
-theorem count91_bracket (body : Bytes) : count91 (91 :: (body ++ [93])) = count91 body + 1 := by
-  unfold count91
-  rw [List.count_cons, List.count_append]
-  simp
+/-- the specification's reading of a bracket word, taken apart -/
+theorem readTok_bracket (fs : Nat) (rest : Bytes) (t : Spec.Tok) (h : Spec.readTok (fs + 1) (91 :: rest) = some t) :
+    ∃ body ws toks, rest = body ++ [93] ∧ Spec.splitWords (rest.length + 2) body [] 0 [] = some ws ∧
+      ws.mapM (Spec.readTok fs) = some toks ∧ t = .sub toks := by
+  rw [Spec.readTok] at h
+  cases hlast : (rest.getLast? == some 93)
+  · rw [hlast] at h; simp at h
+  · rw [hlast] at h
+    simp only [if_true] at h
+    obtain ⟨body, rfl⟩ := List.getLast?_eq_some_iff.mp (by simpa using hlast)
+    have hdl : (body ++ [93]).dropLast = body := by simp
+    rw [hdl] at h
+    cases hsw : Spec.splitWords ((body ++ [93]).length + 2) body [] 0 [] with
+    | none => rw [hsw] at h; simp at h
+    | some ws =>
+      rw [hsw] at h
+      simp only at h
+      cases hm : ws.mapM (Spec.readTok fs) with
+      | none => rw [hm] at h; simp at h
+      | some toks =>
+        rw [hm] at h
+        simp only [Option.map_some, Option.some.injEq] at h
+        exact ⟨body, ws, toks, rfl, hsw, hm, h.symm⟩
 
-/-- THE RECURSION (nesting): whenever the specification reads a word as a token — with whatever fuel — the
-    `Value` constructor run with more fuel than the word has `[` characters yields a value that emits
-    exactly the token's compilation. The fuel `btcc` provides is enough (see `btcc_eq_compile`). -/
+/-- a plain word is never read as a sub-script -/
+theorem readTok_plain_not_sub (fs : Nat) (w : Bytes) (b : List Spec.Tok) (h0x : w ≠ [48, 120]) (hb : w.head? ≠ some 91)
+    (hread : Spec.readTok (fs + 1) w = some (.sub b)) : False := by
+  rw [readTok_plain fs w h0x hb] at hread
+  cases hri : Spec.readInt w with
+  | some n => rw [hri] at hread; cases hread
+  | none =>
+    rw [hri] at hread
+    cases hro : Spec.readOpcode w with
+    | some c => rw [hro] at hread; cases hread
+    | none =>
+      rw [hro] at hread
+      simp only at hread
+      split at hread <;> cases hread
+
+/-- THE RECURSION (nesting), inside the limit: whenever the specification reads a word as a token that needs
+    at most `fm` levels, the `Value` constructor with `fm` levels left (`DepthGuard`: 200 at the top) yields a
+    value that emits exactly the token's compilation -/
 theorem valueOf_readTok (cx : VCtx) : ∀ (fm : Nat) (w : Bytes) (fs : Nat) (t : Spec.Tok),
-    count91 w < fm → Spec.readTok fs w = some t → tokOk t = true → spacedWord fs w = true →
+    tokNeed t ≤ fm → Spec.readTok fs w = some t → tokOk t = true →
     ∃ v, valueOf cx fm w w.length = .ok v ∧ Emits v t := by
   intro fm
   induction fm with
-  | zero => intro w fs t h; omega
+  | zero => intro w fs t h; cases t <;> simp [tokNeed] at h
   | succ fm ih =>
-    intro w fs t hcnt hread hok hsp
+    intro w fs t hneed hread hok
     cases fs with
     | zero => simp [Spec.readTok] at hread
     | succ fs =>
@@ -479,76 +526,22 @@ theorem valueOf_readTok (cx : VCtx) : ∀ (fm : Nat) (w : Bytes) (fs : Nat) (t :
           cases w with
           | nil => simp at hb
           | cons a r => simp at hb; exact ⟨r, by rw [hb]⟩
-        rw [Spec.readTok] at hread
-        cases hlast : (rest.getLast? == some 93)
-        · rw [hlast] at hread; simp at hread
-        · rw [hlast] at hread
-          simp only [if_true] at hread
-          obtain ⟨body, rfl⟩ := List.getLast?_eq_some_iff.mp (by simpa using hlast)
-          have hdl : (body ++ [93]).dropLast = body := by simp
-          rw [hdl] at hread
-          rw [spacedWord] at hsp
-          simp only [hdl, Bool.and_eq_true] at hsp
-          obtain ⟨hspb, hspw⟩ := hsp
-          cases hsw : Spec.splitWords ((body ++ [93]).length + 2) body [] 0 [] with
-          | none => rw [hsw] at hread; simp at hread
-          | some ws =>
-            rw [hsw] at hread hspw
-            simp only at hread hspw
-            cases hm : ws.mapM (Spec.readTok fs) with
-            | none => rw [hm] at hread; simp at hread
-            | some toks =>
-              rw [hm] at hread
-              simp only [Option.map_some, Option.some.injEq] at hread
-              subst hread
-              rw [tokOk] at hok
-              -- the words of the body
-              have hwords := splitWords_words _ body [] 0 [] ws hsw (by intro _; simp) (by intro h; omega)
-              have hgood : ∀ w' ∈ ws, GoodWord w' := by
-                intro w' hw'
-                rcases hwords w' hw' with h | h
-                · cases h
-                · exact h.1
-              have hcnt' : ∀ w' ∈ ws, count91 w' < fm := by
-                intro w' hw'
-                rcases hwords w' hw' with h | h
-                · cases h
-                · have := h.2; rw [count91_bracket] at hcnt
-                  have h0 : count91 ([] : Bytes) = 0 := rfl
-                  omega
-              -- the tokenizer yields these words
-              have htok : parseArgsStringWith (valueOf cx fm) (body ++ [93]) body.length =
-                  (ws.mapM (fun w' => valueOf cx fm w' w'.length)).bind (fun xs => .ok xs) := by
-                by_cases hbe : body = []
-                · subst hbe
-                  have : ws = [] := by
-                    rw [Spec.splitWords] at hsw; simp at hsw; exact hsw
-                  subst this
-                  rfl
-                · obtain ⟨ws', h1, h2⟩ := tokenize_eq_splitWords_aux body [93] hbe hspb ((body ++ [93]).length + 2)
-                    (by simp; omega)
-                  rw [hsw] at h1; cases h1
-                  unfold parseArgsStringWith
-                  have : (body.length == 0) = false := by
-                    have := List.length_pos_iff.mpr hbe
-                    simp; omega
-                  simp only [this, Bool.false_eq_true, if_false, h2, bind, Except.bind]
-                  rw [parseArgsListWith_good _ ws [] [] hgood]
-                  cases ws.mapM (fun w => valueOf cx fm w w.length) <;> rfl
-              -- every word is read correctly (induction hypothesis)
-              obtain ⟨vs, hvs, hes⟩ := mapM_corr (Spec.readTok fs) (fun w' => valueOf cx fm w' w'.length) ws toks hm
-                (by
-                  intro w' hw' t' ht' hr'
-                  exact ih w' fs t' (hcnt' w' hw') hr' (toksOk_mem toks hok t' ht')
-                    (List.all_eq_true.mp hspw w' hw'))
-              rw [valueBody_bracket, htok, hvs]
-              simp only [Except.bind]
-              rw [appendAll_emits vs toks hes []]
-              simp only [List.nil_append]
-              refine ⟨_, rfl, ?_⟩
-              intro s
-              rw [C07.data_emits_minimal _ rfl s]
-              rfl
+        obtain ⟨body, ws, toks, rfl, hsw, hm, rfl⟩ := readTok_bracket fs rest t hread
+        rw [tokOk] at hok
+        rw [tokNeed] at hneed
+        have htok := parseArgsString_eq (valueOf cx fm) body _ (by simp; omega) ws hsw
+        obtain ⟨vs, hvs, hes⟩ := mapM_corr (Spec.readTok fs) (fun w' => valueOf cx fm w' w'.length) ws toks hm
+          (by
+            intro w' hw' t' ht' hr'
+            exact ih w' fs t' (by have := toksNeed_mem toks t' ht'; omega) hr' (toksOk_mem toks hok t' ht'))
+        rw [valueBody_bracket, htok, hvs]
+        simp only [Except.bind]
+        rw [appendAll_emits vs toks hes []]
+        simp only [List.nil_append]
+        refine ⟨_, rfl, ?_⟩
+        intro s
+        rw [C07.data_emits_minimal _ rfl s]
+        rfl
       · -- a plain word
         obtain ⟨hne, hch⟩ := plain_chars fs w t h0x hb hread
         rw [valueBody_plain cx _ w hne h0x hb (fun c hc => (hch c hc).2)]
@@ -569,142 +562,129 @@ theorem valueOf_readTok (cx : VCtx) : ∀ (fm : Nat) (w : Bytes) (fs : Nat) (t :
           refine ⟨_, rfl, ?_⟩
           intro s
           rw [C07.data_emits_minimal _ rfl s]; rfl
-        | sub b =>
-          -- a plain word is never read as a sub-script
-          exfalso
-          rw [readTok_plain fs w h0x hb] at hread
-          cases hri : Spec.readInt w with
-          | some n => rw [hri] at hread; cases hread
-          | none =>
-            rw [hri] at hread
-            cases hro : Spec.readOpcode w with
-            | some c => rw [hro] at hread; cases hread
-            | none =>
-              rw [hro] at hread
-              simp only at hread
-              split at hread <;> cases hread
+        | sub b => exact (readTok_plain_not_sub fs w b h0x hb hread).elim
 
-
-theorem foldl_len : ∀ (ws : List Bytes) (n : Nat),
-    ws.foldl (fun n a => n + a.length) n = n + (ws.map List.length).sum := by
+theorem mapM_deep (rd : Bytes → Option Spec.Tok) (mk' : Bytes → VM Value) (E : VErr) (n : Nat) :
+    ∀ (ws : List Bytes) (toks : List Spec.Tok), ws.mapM rd = some toks →
+    (∀ w ∈ ws, ∀ t ∈ toks, rd w = some t →
+      (tokNeed t ≤ n → ∃ v, mk' w = .ok v) ∧ (tokNeed t > n → mk' w = .error E)) →
+    toksNeed toks > n → ws.mapM mk' = .error E := by
   intro ws
   induction ws with
-  | nil => intro n; simp
-  | cons a ws ih => intro n; simp only [List.foldl_cons, ih, List.map_cons, List.sum_cons]; omega
+  | nil =>
+    intro toks h _ hd
+    simp at h; subst h; simp [toksNeed] at hd
+  | cons w rest ih =>
+    intro toks h hc hd
+    rw [List.mapM_cons] at h
+    cases hw : rd w with
+    | none => rw [hw] at h; simp at h
+    | some t =>
+      rw [hw] at h
+      cases hr : rest.mapM rd with
+      | none => rw [hr] at h; simp at h
+      | some ts =>
+        rw [hr] at h
+        simp at h; subst h
+        rw [List.mapM_cons]
+        have hc1 := hc w (by simp) t (by simp) hw
+        by_cases hdt : tokNeed t > n
+        · rw [hc1.2 hdt]; rfl
+        · obtain ⟨v, hv⟩ := hc1.1 (by omega)
+          rw [hv]
+          rw [toksNeed] at hd
+          have hd' : toksNeed ts > n := by
+            rcases Nat.le_total (tokNeed t) (toksNeed ts) with h | h
+            · rw [Nat.max_eq_right h] at hd; exact hd
+            · rw [Nat.max_eq_left h] at hd; omega
+          have := ih ts hr (fun w' hw' t' ht' => hc w' (by simp [hw']) t' (by simp [ht'])) hd'
+          simp only [bind, Except.bind, this]
 
-theorem count91_le (w : Bytes) : count91 w ≤ w.length := List.count_le_length
-
-theorem groupWords_count : ∀ (ws : List Bytes) (cur : Bytes) (d : Int) (acc : List Bytes),
-    ∀ w ∈ Spec.groupWords ws cur d acc, w ∈ acc ∨ count91 w ≤ count91 cur + (ws.map List.length).sum := by
-  intro ws
-  induction ws with
-  | nil => intro cur d acc w hw; rw [Spec.groupWords] at hw; exact Or.inl (by simpa using hw)
-  | cons v rest ih =>
-    intro cur d acc w hw
-    rw [Spec.groupWords] at hw
-    have hv := count91_le v
-    have hcur' : count91 (cur ++ [32] ++ v) = count91 cur + count91 v := by
-      unfold count91; simp [List.count_append]
-    simp only [List.map_cons, List.sum_cons]
-    dsimp only at hw
-    split at hw
-    · split at hw
-      · rcases ih _ _ _ w hw with h | h
-        · rcases List.mem_cons.mp h with rfl | h
-          · exact Or.inr (by rw [hcur']; omega)
-          · exact Or.inl h
-        · have h0 : count91 ([] : Bytes) = 0 := rfl
-          exact Or.inr (by omega)
-      · rcases ih _ _ _ w hw with h | h
-        · exact Or.inl h
-        · exact Or.inr (by rw [hcur'] at h; omega)
-    · split at hw
-      · rcases ih _ _ _ w hw with h | h
-        · exact Or.inl h
-        · exact Or.inr (by omega)
-      · split at hw
-        · rcases ih _ _ _ w hw with h | h
-          · exact Or.inl h
-          · exact Or.inr (by omega)
-        · rcases ih _ _ _ w hw with h | h
-          · rcases List.mem_cons.mp h with rfl | h
-            · exact Or.inr (by omega)
-            · exact Or.inl h
-          · exact Or.inr (by omega)
+/-- THE RECURSION, beyond the limit: a token of the grammar that needs more levels than are left is refused
+    with the nesting diagnostic (`exit(1)`), whatever else the program contains -/
+theorem valueOf_deep (cx : VCtx) : ∀ (fm : Nat) (w : Bytes) (fs : Nat) (t : Spec.Tok),
+    tokNeed t > fm → Spec.readTok fs w = some t → tokOk t = true →
+    valueOf cx fm w w.length = .error (.exit1 depthMsg) := by
+  intro fm
+  induction fm with
+  | zero => intro w fs t _ _ _; rfl
+  | succ fm ih =>
+    intro w fs t hneed hread hok
+    cases fs with
+    | zero => simp [Spec.readTok] at hread
+    | succ fs =>
+    rw [valueOf]
+    show valueBody cx (valueOf cx fm) w w.length = _
+    by_cases h0x : w = [48, 120]
+    · subst h0x
+      rw [Spec.readTok] at hread
+      simp only [Option.some.injEq] at hread; subst hread
+      simp [tokNeed] at hneed
+    · by_cases hb : w.head? = some 91
+      · obtain ⟨rest, rfl⟩ : ∃ rest, w = 91 :: rest := by
+          cases w with
+          | nil => simp at hb
+          | cons a r => simp at hb; exact ⟨r, by rw [hb]⟩
+        obtain ⟨body, ws, toks, rfl, hsw, hm, rfl⟩ := readTok_bracket fs rest t hread
+        rw [tokOk] at hok
+        rw [tokNeed] at hneed
+        have htok := parseArgsString_eq (valueOf cx fm) body _ (by simp; omega) ws hsw
+        have hdeep := mapM_deep (Spec.readTok fs) (fun w' => valueOf cx fm w' w'.length) (.exit1 depthMsg) fm ws toks hm
+          (by
+            intro w' hw' t' ht' hr'
+            refine ⟨fun hle => ?_, fun hgt => ih w' fs t' hgt hr' (toksOk_mem toks hok t' ht')⟩
+            obtain ⟨v, hv, _⟩ := valueOf_readTok cx fm w' fs t' hle hr' (toksOk_mem toks hok t' ht')
+            exact ⟨v, hv⟩)
+          (by omega)
+        rw [valueBody_bracket, htok, hdeep]
+        rfl
+      · exfalso
+        cases t with
+        | sub b => exact readTok_plain_not_sub fs w b h0x hb hread
+        | int n => simp [tokNeed] at hneed
+        | op c => simp [tokNeed] at hneed
+        | hex d => simp [tokNeed] at hneed
 
 /-- JOB B.3 — for every program inside the grammar (`Spec.readProgram` reads the command-line words as
-    tokens), without the escape for byte 0xff (known finding) and with nested bracket groups delimited by
-    blanks at every nesting level (`spacedWord`; see `lexer_differs_*` for what happens otherwise),
-    `btcc` outputs exactly the specified compilation: opcode byte / minimal push of the number / minimal push of
-    the hex bytes / minimal push of the compiled body, in order, to any nesting depth. In particular the nesting
-    fuel of the model (`valueOf`) never runs out. -/
+    tokens), without the escape for byte 0xff (known finding F-C07-opxff) and nested at most 200 levels
+    (`Value::DepthGuard`; a plain token is level 1, each enclosing bracket adds one), `btcc` outputs exactly the
+    specified compilation: opcode byte / minimal push of the number / minimal push of the hex bytes / minimal push
+    of the compiled body, in order. No lexical side condition is left. -/
 theorem btcc_eq_compile (cx : VCtx) (ws : List Bytes) (toks : List Spec.Tok)
-    (hread : Spec.readProgram ws = some toks) (hok : toksOk toks = true)
-    (hsp : ∀ w ∈ Spec.groupWords ws [] 0 [], spacedWord (w.length + 2) w = true) :
+    (hread : Spec.readProgram ws = some toks) (hok : toksOk toks = true) (hdepth : toksNeed toks ≤ 200) :
     Model.btcc cx ws = .ok (Spec.compileToks toks) := by
   unfold btcc parseArgsList
-  simp only [bind, Except.bind]
   rw [parseArgsListWith_group]
   unfold Spec.readProgram at hread
   obtain ⟨vs, hvs, hes⟩ := mapM_corr (fun w => Spec.readTok (w.length + 2) w)
-    (fun w => valueOf cx (ws.foldl (fun n a => n + a.length) 0 + 4) w w.length) _ toks hread
+    (fun w => valueOf cx valueDepthLimit w w.length) _ toks hread
     (by
       intro w hw t ht hr
-      apply valueOf_readTok cx _ w (w.length + 2) t ?_ hr (toksOk_mem toks hok t ht) (hsp w hw)
-      rcases groupWords_count ws [] 0 [] w hw with h | h
-      · cases h
-      · rw [foldl_len]
-        have h0 : count91 ([] : Bytes) = 0 := rfl
-        omega)
-  rw [hvs]
-  simp only [Except.bind, List.reverse_nil, List.nil_append]
+      exact valueOf_readTok cx _ w (w.length + 2) t
+        (by have := toksNeed_mem toks t ht; show tokNeed t ≤ 200; omega) hr (toksOk_mem toks hok t ht))
+  simp only [hvs, bind, Except.bind, List.reverse_nil, List.nil_append]
   rw [appendAll_emits vs toks hes []]
-  simp
+  rfl
 
-theorem spacedWord_plain (f : Nat) (w : Bytes) (hb : w.head? ≠ some 91) : spacedWord f w = true := by
-  cases f with
-  | zero => rfl
-  | succ f =>
-    rw [spacedWord.eq_def]
-    simp only
-    split
-    · simp at hb
-    · rfl
+/-- … and beyond 200 levels the program is refused with the nesting diagnostic and exit status 1 -/
+theorem btcc_refuses_deep (cx : VCtx) (ws : List Bytes) (toks : List Spec.Tok)
+    (hread : Spec.readProgram ws = some toks) (hok : toksOk toks = true) (hdepth : toksNeed toks > 200) :
+    Model.btcc cx ws = .error (.exit1 depthMsg) := by
+  unfold btcc parseArgsList
+  rw [parseArgsListWith_group]
+  unfold Spec.readProgram at hread
+  have hdeep := mapM_deep (fun w => Spec.readTok (w.length + 2) w)
+    (fun w => valueOf cx valueDepthLimit w w.length) (.exit1 depthMsg) 200 _ toks hread
+    (by
+      intro w hw t ht hr
+      refine ⟨fun hle => ?_, fun hgt => valueOf_deep cx _ w (w.length + 2) t hgt hr (toksOk_mem toks hok t ht)⟩
+      obtain ⟨v, hv, _⟩ := valueOf_readTok cx valueDepthLimit w (w.length + 2) t hle hr (toksOk_mem toks hok t ht)
+      exact ⟨v, hv⟩)
+    hdepth
+  simp only [hdeep, bind, Except.bind]
+  rfl
 
-theorem groupWords_flat : ∀ (ws : List Bytes) (cur : Bytes) (acc : List Bytes), (∀ w ∈ ws, w.head? ≠ some 91) →
-    ∀ w ∈ Spec.groupWords ws cur 0 acc, w ∈ acc ∨ w ∈ ws := by
-  intro ws
-  induction ws with
-  | nil => intro cur acc _ w hw; rw [Spec.groupWords] at hw; exact Or.inl (by simpa using hw)
-  | cons v rest ih =>
-    intro cur acc hws w hw
-    rw [Spec.groupWords] at hw
-    have h1 : ¬ ((0 : Int) > 0) := by decide
-    have h3 : (v.head? == some 91 && decide (Spec.bracketBalance v > 0)) = false := by
-      have : (v.head? == some 91) = false := by simpa using hws v (by simp)
-      simp [this]
-    simp only [h1, if_false, h3, Bool.false_eq_true] at hw
-    split at hw
-    · rcases ih _ _ (fun w hw => hws w (by simp [hw])) w hw with h | h
-      · exact Or.inl h
-      · exact Or.inr (by simp [h])
-    · rcases ih _ _ (fun w hw => hws w (by simp [hw])) w hw with h | h
-      · rcases List.mem_cons.mp h with rfl | h
-        · exact Or.inr (by simp)
-        · exact Or.inl h
-      · exact Or.inr (by simp [h])
-
-/-- the flat case: a program without bracket groups needs no lexical side condition at all -/
-theorem btcc_eq_compile_flat (cx : VCtx) (ws : List Bytes) (toks : List Spec.Tok)
-    (hread : Spec.readProgram ws = some toks) (hok : toksOk toks = true) (hflat : ∀ w ∈ ws, w.head? ≠ some 91) :
-    Model.btcc cx ws = .ok (Spec.compileToks toks) := by
-  apply btcc_eq_compile cx ws toks hread hok
-  intro w hw
-  rcases groupWords_flat ws [] [] hflat w hw with h | h
-  · cases h
-  · exact spacedWord_plain _ w (hflat w h)
-
-/-! ### the differences, as checked witnesses (all reproduced on the real `btcc`, see the report) -/
+/-! ### witnesses (all run on the real `btcc` of the fixed tree) -/
 
 /-- KNOWN FINDING F-C07-opxff: `btcc OP_xff` pushes the six ASCII characters instead of emitting byte ff,
     while the specification reads the word as opcode 255 -/
@@ -713,44 +693,40 @@ theorem btcc_opxff (cx : VCtx) :
     (Spec.readProgram [[79, 80, 95, 120, 102, 102]]).map Spec.compileToks = some [255] := by
   refine ⟨rfl, by decide +kernel⟩
 
+/-- words glued to a group are single words OUTSIDE the grammar — it is the token reader that rejects them
+    (`Spec.readProgram` = none: `OP_1[OP_2]` and `[]5` are neither number, opcode, hex nor a bracket) — and the
+    implementation assembles them as text: `btcc '[OP_1[OP_2]]'` = 0b0a4f505f315b4f505f325d,
+    `btcc '[[]5]'` = 04035b5d35, `btcc '[[OP_2]OP_1]'` = 0b0a5b4f505f325d4f505f31 -/
+theorem btcc_glued_out_of_grammar (cx : VCtx) :
+    Model.btcc cx [[91, 79, 80, 95, 49, 91, 79, 80, 95, 50, 93, 93]] = .ok [11, 10, 79, 80, 95, 49, 91, 79, 80, 95, 50, 93] ∧ Spec.readProgram [[91, 79, 80, 95, 49, 91, 79, 80, 95, 50, 93, 93]] = none ∧
+    Model.btcc cx [[91, 91, 93, 53, 93]] = .ok [4, 3, 91, 93, 53] ∧ Spec.readProgram [[91, 91, 93, 53, 93]] = none ∧
+    Model.btcc cx [[91, 91, 79, 80, 95, 50, 93, 79, 80, 95, 49, 93]] = .ok [11, 10, 91, 79, 80, 95, 50, 93, 79, 80, 95, 49] ∧ Spec.readProgram [[91, 91, 79, 80, 95, 50, 93, 79, 80, 95, 49, 93]] = none := by
+  have e : ∀ (x : Option (List Spec.Tok)), x.isNone = true → x = none := by
+    intro x h; cases x with | none => rfl | some _ => cases h
+  refine ⟨by rfl, e _ (by decide +kernel), by with_unfolding_all rfl, e _ (by decide +kernel), by rfl, e _ (by decide +kernel)⟩
 
-/-- SPEC/IMPLEMENTATION DIFFERENCE 1 (reproduced on btcc): a word directly in front of a nested group.
-    `btcc '[OP_1[OP_2]]'` prints 0b0a4f505f315b4f505f325d (push of the ASCII text `OP_1[OP_2]`);
-    the grammar reads OP_1 followed by the sub-script [OP_2]: 03510152 -/
-theorem btcc_differs_glued (cx : VCtx) :
-    Model.btcc cx [[91, 79, 80, 95, 49, 91, 79, 80, 95, 50, 93, 93]] = .ok [11, 10, 79, 80, 95, 49, 91, 79, 80, 95, 50, 93] ∧
-    (Spec.readProgram [[91, 79, 80, 95, 49, 91, 79, 80, 95, 50, 93, 93]]).map Spec.compileToks = some [3, 81, 1, 82] := by
-  refine ⟨rfl, by decide +kernel⟩
-
-/-- SPEC/IMPLEMENTATION DIFFERENCE 2 (reproduced on btcc): the character behind a nested group's `]` is lost.
-    `btcc '[[]5]'` prints 0100 (the 5 is dropped silently); the grammar reads the sub-script [] and the number 5: 020055.
-    `btcc '[[OP_2]#c\nOP_1]'` prints 050152016351 (the `#` is dropped, so `c` is assembled as a string);
-    the grammar skips the comment: 03015251 -/
-theorem btcc_differs_after_close (cx : VCtx) :
-    Model.btcc cx [[91, 91, 93, 53, 93]] = .ok [1, 0] ∧
-    (Spec.readProgram [[91, 91, 93, 53, 93]]).map Spec.compileToks = some [2, 0, 85] ∧
-    Model.btcc cx [[91, 91, 79, 80, 95, 50, 93, 35, 99, 10, 79, 80, 95, 49, 93]] = .ok [5, 1, 82, 1, 99, 81] ∧
+/-- a comment directly behind a group (a difference before the fix): `btcc '[[OP_2]#c⏎OP_1]'` = 03015251 -/
+theorem btcc_comment_after_group (cx : VCtx) :
+    Model.btcc cx [[91, 91, 79, 80, 95, 50, 93, 35, 99, 10, 79, 80, 95, 49, 93]] = .ok [3, 1, 82, 81] ∧
     (Spec.readProgram [[91, 91, 79, 80, 95, 50, 93, 35, 99, 10, 79, 80, 95, 49, 93]]).map Spec.compileToks = some [3, 1, 82, 81] := by
-  refine ⟨by rfl, by decide +kernel, by with_unfolding_all rfl, by decide +kernel⟩
+  refine ⟨by with_unfolding_all rfl, by decide +kernel⟩
 
 /-- the hypotheses of `btcc_eq_compile` are satisfiable by a non-trivial program: two command-line words,
-    `[OP_1 [ 0x0102 -5 ] #x⏎ 16 [] ]` (nesting, a comment, hex, negative and small integers, an empty group)
-    and `DUP` -/
-def exampleProgram : List Bytes := [[91, 79, 80, 95, 49, 32, 91, 32, 48, 120, 48, 49, 48, 50, 32, 45, 53, 32, 93, 32, 35, 120, 10, 32, 49, 54, 32, 91, 93, 32, 93], [68, 85, 80]]
+    `[OP_1 [ 0x0102 -5 ]#x⏎ 16 [] ]` (nesting, a comment glued to a group, hex, negative and small integers, an
+    empty group) and `DUP` -/
+def exampleProgram : List Bytes := [[91, 79, 80, 95, 49, 32, 91, 32, 48, 120, 48, 49, 48, 50, 32, 45, 53, 32, 93, 35, 120, 10, 32, 49, 54, 32, 91, 93, 32, 93], [68, 85, 80]]
 
-example : ∃ toks, Spec.readProgram exampleProgram = some toks ∧ toksOk toks = true ∧
-    (∀ w ∈ Spec.groupWords exampleProgram [] 0 [], spacedWord (w.length + 2) w = true) ∧
+example : ∃ toks, Spec.readProgram exampleProgram = some toks ∧ toksOk toks = true ∧ toksNeed toks ≤ 200 ∧
     ∀ cx, Model.btcc cx exampleProgram = .ok (Spec.compileToks toks) ∧
       Spec.compileToks toks = [9, 81, 5, 2, 1, 2, 1, 133, 96, 0, 118] := by
   have h1 : (Spec.readProgram exampleProgram).map toksOk = some true := by decide +kernel
-  have h2 : (Spec.groupWords exampleProgram [] 0 []).all (fun w => spacedWord (w.length + 2) w) = true := by decide +kernel
+  have h2 : (Spec.readProgram exampleProgram).map (fun t => decide (toksNeed t ≤ 200)) = some true := by decide +kernel
   have h3 : (Spec.readProgram exampleProgram).map Spec.compileToks = some [9, 81, 5, 2, 1, 2, 1, 133, 96, 0, 118] := by decide +kernel
   cases h : Spec.readProgram exampleProgram with
   | none => rw [h] at h1; cases h1
   | some toks =>
-    rw [h] at h1 h3
-    simp only [Option.map_some, Option.some.injEq] at h1 h3
-    have hsp := fun w hw => List.all_eq_true.mp h2 w hw
-    exact ⟨toks, rfl, h1, hsp, fun cx => ⟨btcc_eq_compile cx exampleProgram toks h h1 hsp, h3⟩⟩
+    rw [h] at h1 h2 h3
+    simp only [Option.map_some, Option.some.injEq, decide_eq_true_eq] at h1 h2 h3
+    exact ⟨toks, rfl, h1, h2, fun cx => ⟨btcc_eq_compile cx exampleProgram toks h h1 h2, h3⟩⟩
 
 end Btcdeb.Proofs.C07Lexer
